@@ -120,5 +120,77 @@ def main_nodes():
     sys.exit(1 if fails else 0)
 
 
+def _adjacency_ok(mg, notrav=()):
+    """every neighbour recorded in the adjacency is a node of the graph (remove_node / the notravbuses handling must not leave
+    half-removed edges behind)"""
+    nodes = set(mg.nodes())
+    for u in nodes:
+        for v in mg.adj[u]:
+            if v not in nodes:
+                return f"the adjacency of node {u} names {v}, which is not a node of the graph"
+    return None
+
+
+def main_notrav():
+    """notravbuses together with out-of-service buses; connected_components with notravbuses covers every node once"""
+    fails = []
+
+    def chain(n, oos=()):
+        net = pp.create_empty_network()
+        b = pp.create_buses(net, n, 20.)
+        pp.create_ext_grid(net, b[0])
+        for f, t in zip(b[:-1], b[1:]):
+            pp.create_line_from_parameters(net, f, t, 1., 0.1, 0.1, 10., 0.4)
+        for x in oos:
+            net.bus.at[b[x], "in_service"] = False
+        return net
+    for oos, notrav in (((1,), [1]), ((2,), [1]), ((3,), [1]), ((), [1]), ((1, 2), [2])):
+        net = chain(5, oos)
+        tag = f"chain 0-1-2-3-4, out-of-service buses {list(oos)}, notravbuses={notrav}"
+        try:
+            mg = top.create_nxgraph(net, notravbuses=notrav)
+        except Exception as e:
+            fails.append(f"{tag}: create_nxgraph raises {type(e).__name__}({e})")
+            continue
+        if set(mg.nodes()) != set(net.bus.index[net.bus.in_service]):
+            fails.append(f"{tag}: nodes {sorted(mg.nodes())} are not the in-service buses")
+        bad = _adjacency_ok(mg)
+        if bad:
+            fails.append(f"{tag}: {bad}")
+            continue
+        try:
+            comps = [set(c) for c in top.connected_components(mg)]
+            d = top.calc_distance_to_bus(net, 0, notravbuses=notrav)
+        except Exception as e:
+            fails.append(f"{tag}: graph search raises {type(e).__name__}({e})")
+            continue
+        # a notravbus is a member of the component on each of its sides; all other buses are in exactly one component
+        if set().union(*comps) != set(mg.nodes()) or any(sum(x in c for c in comps) != 1 for x in set(mg.nodes()) - set(notrav)):
+            fails.append(f"{tag}: connected_components {comps} does not cover the nodes {sorted(mg.nodes())} / partition the other buses")
+    # connected_components(mg, notravbuses): the buses that are not notravbuses are partitioned, every notravbus belongs to (at least)
+    # one component, no component is reported twice
+    net = chain(6)
+    pp.create_line_from_parameters(net, 1, 2, 1., 0.1, 0.1, 10., 0.4)           # double line 1-2
+    iso = pp.create_bus(net, 20.)                                              # a bus without any connection
+    mg = top.create_nxgraph(net)
+    for notrav in (set(), {3}, {1, 2}, {iso}, {0, iso}, {2, 3, 4}):
+        comps = [frozenset(c) for c in top.connected_components(mg, notravbuses=set(notrav))]
+        tag = f"chain 0..5 with a double line 1-2 and an isolated bus {iso}, connected_components(mg, notravbuses={sorted(notrav)})"
+        union = set().union(*comps) if comps else set()
+        if union != set(mg.nodes()):
+            fails.append(f"{tag}: buses {sorted(set(mg.nodes()) - union)} are in no component")
+        if len(set(comps)) != len(comps):
+            fails.append(f"{tag}: a component is reported more than once: {[sorted(c) for c in comps]}")
+        for x in set(mg.nodes()) - set(notrav):
+            if sum(x in c for c in comps) != 1:
+                fails.append(f"{tag}: bus {x} is in {sum(x in c for c in comps)} components")
+                break
+    for f in fails:
+        print("REPRODUCED:", f)
+    if not fails:
+        print("not reproduced: notravbuses and out-of-service buses leave a consistent graph; components cover the nodes")
+    sys.exit(1 if fails else 0)
+
+
 if __name__ == "__main__":
     main()
